@@ -293,14 +293,24 @@ func addrByte(c byte) bool {
 	return c >= '0' && c <= '9' || c >= 'a' && c <= 'f' || c >= 'A' && c <= 'F' || c == ':' || c == '.'
 }
 
+// parsePrefixes is the harness's own reading of a range list (CIDR, or a single address =
+// full-length prefix) — deliberately NOT caddy's CIDRExpressionToPrefix, which is under test.
 func parsePrefixes(xs []string) ([]netip.Prefix, error) {
 	var out []netip.Prefix
 	for _, x := range xs {
-		p, err := caddyhttp.CIDRExpressionToPrefix(x)
+		if strings.Contains(x, "/") {
+			p, err := netip.ParsePrefix(x)
+			if err != nil {
+				return nil, err
+			}
+			out = append(out, p)
+			continue
+		}
+		a, err := netip.ParseAddr(x)
 		if err != nil {
 			return nil, err
 		}
-		out = append(out, p)
+		out = append(out, netip.PrefixFrom(a, a.BitLen()))
 	}
 	return out, nil
 }
@@ -364,6 +374,49 @@ func (k *kase) table() string {
 		parts[i] = core.Hex(s) + ":" + core.Hex(a.String()) + ":" + bits(sp, a) + ":" + bits(hp, a)
 	}
 	return strings.Join(parts, ";")
+}
+
+// tableOK accepts the table given on the line iff it contains every row of the computed table
+// and every additional row is also a correct netip answer (so that a shrunk case, whose strings
+// have fewer substrings, keeps a valid table).
+func (k *kase) tableOK(computed string) bool {
+	if k.tbl == computed {
+		return true
+	}
+	if k.tbl == "." || k.tbl == "" {
+		return false
+	}
+	sp, e1 := parsePrefixes(k.srvT)
+	hp, e2 := parsePrefixes(k.hT)
+	if e1 != nil || e2 != nil {
+		return false
+	}
+	given := map[string]bool{}
+	subs := map[string]bool{}
+	for _, row := range strings.Split(k.tbl, ";") {
+		f := strings.Split(row, ":")
+		if len(f) != 4 {
+			return false
+		}
+		sub, err := core.UnHex(f[0])
+		if err != nil || subs[sub] || strings.Contains(sub, "%") {
+			return false
+		}
+		a, err := netip.ParseAddr(sub)
+		if err != nil || core.Hex(a.String()) != f[1] || bits(sp, a) != f[2] || bits(hp, a) != f[3] {
+			return false
+		}
+		subs[sub] = true
+		given[row] = true
+	}
+	if computed != "." {
+		for _, row := range strings.Split(computed, ";") {
+			if !given[row] {
+				return false
+			}
+		}
+	}
+	return true
 }
 
 // ---------------------------------------------------------------- provisioned servers (cached per configuration)
@@ -546,7 +599,7 @@ func (p *prop) Run(line string) core.Outcome {
 	}
 	if t := k.table(); t == "!" {
 		return core.Outcome{Impl: "bad-op"} // a range netip rejects: never generated
-	} else if t != k.tbl {
+	} else if !k.tableOK(t) {
 		return core.Outcome{Impl: "bad-table", Tags: []string{"bad-table"}}
 	}
 	impl, o, err := p.serve(k, k.hdrs)
